@@ -280,6 +280,15 @@ func c17Defs() []c17Def {
 				x.ev("shutdown-err")
 			}
 		}},
+		{Name: "shutdown-cancelled-ctx", Run: func(x *c17Ctx) {
+			// the shutdown context is already done when the registry gets to the abandoned transaction (a server
+			// whose own stop ran into its deadline): the transaction must be rolled back all the same
+			a := x.client("A", false, func(id string, tx transaction.Transaction) { tx.Put([]byte("a"), []byte("A")) })
+			vsched.Join(a)
+			ctx, cancel := context.WithCancel(context.Background())
+			cancel()
+			x.reg.GracefulShutdown(ctx)
+		}},
 		{Name: "ro-begins", Run: func(x *c17Ctx) {
 			// read-only begins do not exclude each other: two of them at once, then a writer
 			ro := func(id string, tx transaction.Transaction) { tx.Get([]byte("a")); tx.Commit(); x.reg.Remove(id) }
@@ -416,7 +425,7 @@ func init() {
 		ID:    "C17",
 		Level: "model_checking",
 		Rule: "(A) every sequence of <=4 (5 thorough) calls {get, put, delete, scan, commit, rollback} on one read-write and one read-only transaction: the first successful finish takes effect once, every later call returns the closed error and changes nothing, the database is free afterwards (probe begin) and shows exactly the committed effect. " +
-			"(B) stateless exploration of 9 registry scenarios (2-3 threads; two simultaneous read-only begins followed by a writer is the ninth): begin waiting for the lock while the 10 s begin timeout fires as an environment event (every ready select case explored), abandonment followed by idle cleanup (direct and through the cleanup ticker), connection cleanup, graceful shutdown, commit racing rollback, stale cleanup racing commit; all interleavings up to the deviation bound (2 quick, 3 thorough) with happens-before caching. Oracle: after every terminal state a probe BeginTransaction(false) is granted (otherwise the scheduler reports the deadlock with the blocked sites), a write is visible iff its commit reported success, commit and rollback never both succeed. (C) the scenarios without long real-time waits run free in a -race build (8 / 100 iterations each): any race report, panic or hang is a violation - the exploration interleaves at synchronisation operations only, which is sufficient only if there is no unsynchronised access. Non-trivial = executions with a cross-thread conflict",
+			"(B) stateless exploration of 10 registry scenarios (graceful shutdown also with a context that is already cancelled) (2-3 threads; two simultaneous read-only begins followed by a writer is the ninth): begin waiting for the lock while the 10 s begin timeout fires as an environment event (every ready select case explored), abandonment followed by idle cleanup (direct and through the cleanup ticker), connection cleanup, graceful shutdown, commit racing rollback, stale cleanup racing commit; all interleavings up to the deviation bound (2 quick, 3 thorough) with happens-before caching. Oracle: after every terminal state a probe BeginTransaction(false) is granted (otherwise the scheduler reports the deadlock with the blocked sites), a write is visible iff its commit reported success, commit and rollback never both succeed. (C) the scenarios without long real-time waits run free in a -race build (8 / 100 iterations each): any race report, panic or hang is a violation - the exploration interleaves at synchronisation operations only, which is sufficient only if there is no unsynchronised access. Non-trivial = executions with a cross-thread conflict",
 		Assumptions: []string{"virtual time: the 10 s begin timeout, the 30 s idle limit and the cleanup ticker are environment events / clock jumps", "a client never requests a second transaction while holding one (excluded by the statement)"},
 		Units: func(tier string) []string {
 			us := []string{"seq/rw", "seq/ro"}
